@@ -15,7 +15,7 @@ from bridge_env.network_bridge.bidding_system import AlwaysPass, WeakBid
 from bridge_env.network_bridge.client import Client
 from bridge_env.network_bridge.playing_system import RandomPlay
 from bridge_env.network_bridge.socket_interface import MessageInterface
-from pyvc.dsl import (Bool, CardSet, Const, Dict, Enum, Ext, Int, Obj, OneOf, Opt, Text, TraceReset,
+from pyvc.dsl import (Alias, IntElem, Seq, TraceList, Bool, CardSet, Const, Dict, Enum, Ext, Int, Obj, OneOf, Opt, Text, TraceReset,
                       Tuple, contract, klass, transparent, LoopContract)
 from pyvc.speclib import (abstract_result, conj, disj, iff, implies, ite, opt_or, same, seq_appended,
                           sock_pos, sock_sent, vec_get)
@@ -30,12 +30,24 @@ from contracts.score import ContractS, passed_out, valid_contract
 P = ['C11']
 N = Player.N
 
-ClientShape = Obj(Client, dict(
-    ip_address=Const('localhost'), port=Const(2000), player=Enum(Player), team_name=Text(),
-    bidding_system=Obj(WeakBid, {}), playing_system=Obj(RandomPlay, {}),
-    opponent_team_name=Opt(Text()), connection_socket=SocketShape, _socket=Ext('ssocket', {}),
-    board_num=Int(0), dealer=Enum(Player), vul=Enum(Vul), hand_set=CardSet(),
-    hand_binary=Tuple(*[Int(0, 1) for _ in range(52)])))
+def _client_shape(connected):
+    """The client talks through the very socket that SocketInterface.__enter__ created and
+    connect_socket() connects (`_socket` and `connection_socket` are one object: established by
+    Client.__enter__, contracts/plumbing.py).  `connected` / `closed` are the ghost life cycle of
+    that socket: sending or receiving before connect(), or after close(), raises OSError."""
+    sock = Ext('socket', dict(data=Seq(IntElem()), pos=Int(0), sent=TraceList(),
+                              closed=Const(False),
+                              connected=Const(True) if connected else Bool()))
+    return Obj(Client, dict(
+        ip_address=Const('localhost'), port=Const(2000), player=Enum(Player), team_name=Text(),
+        bidding_system=Obj(WeakBid, {}), playing_system=Obj(RandomPlay, {}),
+        opponent_team_name=Opt(Text()), connection_socket=sock, _socket=Alias('connection_socket'),
+        board_num=Int(0), dealer=Enum(Player), vul=Enum(Vul), hand_set=CardSet(),
+        hand_binary=Tuple(*[Int(0, 1) for _ in range(52)])))
+
+
+ClientShape = _client_shape(True)           # every phase after the admission handshake
+FreshClientShape = _client_shape(False)     # as left by __enter__: not yet connected
 
 
 def client_inv(s):
@@ -253,9 +265,21 @@ class _client_deal:
 class _client_connect:
     raises = {Exception: 'onlyif'}
     exc_havoc = True
+    params = dict(self=FreshClientShape)
     modifies = ['self.connection_socket', 'self.opponent_team_name']
     note = ('the conforming side of the admission handshake (C20): raises when the table manager '
             'answers anything but the seating confirmation, or names another team for this side')
+
+    def requires_not_yet_connected(self):
+        return not self.connection_socket.connected
+
+    # the connection is made before anything is sent or read: whatever happens afterwards, the
+    # socket the messages go through is the one that was connected
+    def excensures_connected_first(self):
+        return self.connection_socket.connected
+
+    def ensures_connected(self):
+        return conj(self.connection_socket.connected, self._socket is self.connection_socket)
 
     # C20/C11: the three messages of the handshake, in order, with the client's own seat, team and
     # protocol version 18; the opponents' name is the other side's name of the Teams message
@@ -305,7 +329,12 @@ def _one_board_per_iteration(self, iter, contract, message):
 class _client_run:
     raises = {Exception: 'onlyif', AssertionError: 'onlyif', ValueError: 'onlyif'}
     exc_havoc = True
+    params = dict(self=FreshClientShape)
     modifies = ['self']
+
+    def requires_not_yet_connected(self):
+        return not self.connection_socket.connected
+
     loops = {0: LoopContract(invariant=_run_inv,
                              havoc=dict(message=DecodedStr(), board_num=Int(0)),
                              havoc_heap={'self': ClientShape},
